@@ -381,8 +381,9 @@ theorem Inv.pollD {s : State} (h : Inv s) : Inv (pollD s) := by
 
 /-! ## the effect's task -/
 
-/-- what the effect's check phase (`update_if_necessary` over its sources) can change: the memo, and —
-when it reaches the derived while that is `Dirty` — the derived's state, which it resets to `Clean` -/
+/-- what the effect's check phase (`update_if_necessary` over its sources, untracked) can change: the
+memo, the effect's own dirty flag / channel (a memo that changed marks it), and — when it reaches the
+derived while that is `Dirty` — the derived's state, which it resets to `Clean` -/
 structure Frame (s s' : State) : Prop where
   eff : s'.eff = s.eff
   src : s'.src = s.src
@@ -398,10 +399,6 @@ structure Frame (s s' : State) : Prop where
   fetchVersion : s'.fetchVersion = s.fetchVersion
   curInputs : s'.curInputs = s.curInputs
   curStatus : s'.curStatus = s.curStatus
-  eDirty : s'.eDirty = s.eDirty
-  eChan : s'.eChan = s.eChan
-  eReg : s'.eReg = s.eReg
-  eWoken : s'.eWoken = s.eWoken
   eFirst : s'.eFirst = s.eFirst
   eSubD : s'.eSubD = s.eSubD
   eSubM : s'.eSubM = s.eSubM
@@ -417,8 +414,8 @@ theorem Frame.refl (s : State) : Frame s s := by
   constructor <;> simp
 
 theorem Frame.trans {a b c : State} (h1 : Frame a b) (h2 : Frame b c) : Frame a c := by
-  obtain ⟨_, _, _, _, _, _, _, _, _, _, _, _, _, _, _, _, _, _, _, _, _, _, _, _, _, _, d1⟩ := h1
-  obtain ⟨_, _, _, _, _, _, _, _, _, _, _, _, _, _, _, _, _, _, _, _, _, _, _, _, _, _, d2⟩ := h2
+  obtain ⟨_, _, _, _, _, _, _, _, _, _, _, _, _, _, _, _, _, _, _, _, _, _, d1⟩ := h1
+  obtain ⟨_, _, _, _, _, _, _, _, _, _, _, _, _, _, _, _, _, _, _, _, _, _, d2⟩ := h2
   constructor <;> simp_all
   rcases d1 with d1 | d1 <;> rcases d2 with d2 | d2 <;> simp_all
 
@@ -428,9 +425,12 @@ theorem Frame.dAsSource (s : State) : Frame s (dAsSource s).1 := by
   · constructor <;> simp_all
   · exact Frame.refl s
 
-theorem Frame.memoUpdate (s : State) : Frame s (memoUpdate s).1 := by
-  unfold Async.memoUpdate
-  split <;> constructor <;> simp
+theorem Frame.memoUpdate (b : Bool) (s : State) : Frame s (memoUpdate b s).1 := by
+  simp only [Async.memoUpdate, eMarkDirty, eNotify]
+  split
+  · exact Frame.refl s
+  · constructor <;> simp
+  · (repeat' split) <;> constructor <;> simp
 
 theorem Frame.effAny (l : List Src) (s : State) : Frame s (effAny l s).1 := by
   induction l generalizing s with
@@ -443,9 +443,8 @@ theorem Frame.effAny (l : List Src) (s : State) : Frame s (effAny l s).1 := by
       · exact (Frame.dAsSource s).trans (ih _)
     · simp only [Async.effAny]
       split
-      · exact Frame.memoUpdate s
-      · exact (Frame.memoUpdate s).trans (ih _)
-
+      · exact Frame.memoUpdate true s
+      · exact (Frame.memoUpdate true s).trans (ih _)
 
 theorem hasEffect_of_hasMemo (k : EffKind) : hasMemo k = true → hasEffect k = true := by
   cases k <;> simp [hasMemo, hasEffect]
@@ -454,18 +453,20 @@ theorem runEffect_spec (s : State) : ∃ (ms : MState) (mv : Option Val) (mr : B
     runEffect s = { s with eFirst := false, eSubD := hasEffect s.eff, eSubM := hasMemo s.eff,
                            mstate := ms, mval := mv, mRan := mr, eLog := s.eLog ++ [(s.value, x)] } := by
   cases he : s.eff <;>
-    simp only [runEffect, effSources, effRead, memoUpdate, he, List.foldl, hasMemo, hasEffect] <;>
+    simp only [runEffect, effSources, effRead, memoUpdate, he, List.foldl, hasMemo, hasEffect,
+      Bool.and_false, Bool.false_and, Bool.false_eq_true, if_false] <;>
     (try split) <;> exact ⟨_, _, _, _, rfl⟩
 
+/-- a run of the effect's function re-establishes the effect's part of the invariant -/
 theorem runEffect_inv {s : State} (dc : DCore s) (dr : DRest s)
-    (e6 : hasMemo s.eff = false → s.stolen = false) (hd : s.eDirty = false) (hc : s.eChan = false) :
-    DCore (runEffect s) ∧ DRest (runEffect s) ∧ ECore (runEffect s) ∧ (runEffect s).eChan = false ∧
-    (runEffect s).eWoken = s.eWoken ∧ (runEffect s).eReg = s.eReg ∧ (runEffect s).eFirst = false := by
+    (e6 : hasMemo s.eff = false → s.stolen = false) (hd : s.eDirty = false)
+    (hc : hasMemo s.eff = false → s.eChan = false) :
+    DCore (runEffect s) ∧ DRest (runEffect s) ∧ ECore (runEffect s) := by
   obtain ⟨r1, r2, r7, m1, aw⟩ := dc
   obtain ⟨r3, r4, r5, r6, fresh⟩ := dr
   obtain ⟨ms, mv, mr, x, h⟩ := runEffect_spec s
   rw [h]
-  refine ⟨⟨?_, ?_, ?_, ?_, ?_⟩, ⟨?_, ?_, ?_, ?_, ?_⟩, ⟨?_, ?_, ?_, ?_, ?_, ?_, ?_⟩, ?_, ?_, ?_, ?_⟩ <;>
+  refine ⟨⟨?_, ?_, ?_, ?_, ?_⟩, ⟨?_, ?_, ?_, ?_, ?_⟩, ⟨?_, ?_, ?_, ?_, ?_, ?_, ?_⟩⟩ <;>
     simp_all [lastSeen]
   exact hasEffect_of_hasMemo _
 
@@ -488,7 +489,7 @@ theorem effUpdate_inv {s : State} (dc : DCore s) (dr : DRest s)
     (e6 : hasMemo s.eff = false → s.stolen = false)
     (hm : hasMemo s.eff = false → s.eDirty = true) :
     DCore (effUpdate s).1 ∧ DRest (effUpdate s).1 ∧ (effUpdate s).1.eDirty = false ∧
-    (effUpdate s).1.eChan = s.eChan ∧ (effUpdate s).1.eWoken = s.eWoken ∧ (effUpdate s).1.eReg = s.eReg ∧
+    (hasMemo s.eff = false → (effUpdate s).1.eChan = s.eChan) ∧
     (effUpdate s).1.eFirst = s.eFirst ∧ (effUpdate s).1.eff = s.eff ∧
     (effUpdate s).1.eSubD = s.eSubD ∧ (effUpdate s).1.eSubM = s.eSubM ∧
     (s.eDirty = true → (effUpdate s).2 = true) ∧
@@ -500,7 +501,7 @@ theorem effUpdate_inv {s : State} (dc : DCore s) (dr : DRest s)
   unfold effUpdate
   by_cases hd : s.eDirty = true
   · rw [if_pos hd]
-    refine ⟨⟨?_, ?_, ?_, ?_, ?_⟩, ⟨?_, ?_, ?_, ?_, ?_⟩, ?_, ?_, ?_, ?_, ?_, ?_, ?_, ?_, ?_, ?_, ?_⟩ <;>
+    refine ⟨⟨?_, ?_, ?_, ?_, ?_⟩, ⟨?_, ?_, ?_, ?_, ?_⟩, ?_, ?_, ?_, ?_, ?_, ?_, ?_, ?_, ?_⟩ <;>
       simp_all [lastSeen]
   · rw [if_neg hd]
     have hmm : hasMemo s.eff = true := by
@@ -510,46 +511,16 @@ theorem effUpdate_inv {s : State} (dc : DCore s) (dr : DRest s)
     generalize (if s.eFirst = true then [] else effSources s.eff) = L
     have hfr := Frame.effAny L s
     generalize effAny L s = r at *
-    obtain ⟨f1, f2, f3, f4, f5, f6, f7, f8, f9, f10, f11, f12, f13, f14, f15, f16, f17, f18, f19, f20, f21,
+    obtain ⟨f1, f2, f3, f4, f5, f6, f7, f8, f9, f10, f11, f12, f13, f14, f19, f20, f21,
       f22, f23, f24, f25, f26, fds⟩ := hfr
-    refine ⟨⟨?_, ?_, ?_, ?_, ?_⟩, ⟨?_, ?_, ?_, ?_, ?_⟩, ?_, ?_, ?_, ?_, ?_, ?_, ?_, ?_, ?_, ?_, ?_⟩ <;>
+    refine ⟨⟨?_, ?_, ?_, ?_, ?_⟩, ⟨?_, ?_, ?_, ?_, ?_⟩, ?_, ?_, ?_, ?_, ?_, ?_, ?_, ?_, ?_⟩ <;>
       (rcases fds with fds | fds) <;> simp_all [lastSeen]
 
-theorem effUpdate_eChan (s : State) : (effUpdate s).1.eChan = s.eChan := by
-  unfold effUpdate
-  split
-  · rfl
-  · exact (Frame.effAny _ s).eChan
-
-theorem runEffect_eChan (s : State) : (runEffect s).eChan = s.eChan := by
-  obtain ⟨ms, mv, mr, x, h⟩ := runEffect_spec s
-  rw [h]
-
-theorem eIter_cont_chan (s : State) (h : (eIter s).2 = true) : (eIter s).1.eChan = false := by
-  rw [eIter_def] at h ⊢
-  by_cases hc : s.eChan = false
-  · rw [if_pos hc] at h; simp at h
-  · rw [if_neg hc]
-    split
-    · show (runEffect _).eChan = false
-      rw [runEffect_eChan, effUpdate_eChan]
-    · show (effUpdate _).1.eChan = false
-      rw [effUpdate_eChan]
-
-theorem eLoop_eq (n : Nat) (s : State) :
-    eLoop (n + 2) s = if (eIter s).2 then (eIter (eIter s).1).1 else (eIter s).1 := by
-  rw [eLoop]
-  split
-  · rename_i h
-    have hc := eIter_cont_chan s h
-    rw [eLoop, eIter_def (eIter s).1]
-    simp [hc]
-  · rfl
-
+/-- one iteration of the effect's loop, from a state satisfying everything but the effect's wake-up
+clauses: either it suspends and the full invariant holds, or it goes round again in such a state -/
 theorem eIter_inv {s : State} (dc : DCore s) (dr : DRest s) (ec : ECore s) :
     ((eIter s).2 = false → Inv (eIter s).1) ∧
-    ((eIter s).2 = true → DCore (eIter s).1 ∧ DRest (eIter s).1 ∧ ECore (eIter s).1 ∧
-      (eIter s).1.eChan = false ∧ (eIter s).1.eFirst = false ∧ (eIter s).1.eWoken = s.eWoken) := by
+    ((eIter s).2 = true → DCore (eIter s).1 ∧ DRest (eIter s).1 ∧ ECore (eIter s).1) := by
   rw [eIter_def]
   by_cases hc : s.eChan = false
   · rw [if_pos hc]
@@ -565,12 +536,11 @@ theorem eIter_inv {s : State} (dc : DCore s) (dr : DRest s) (ec : ECore s) :
     have hu := effUpdate_inv (s := { s with eReg := true, eChan := false })
       ⟨dc.r1, dc.r2, dc.r7, dc.m1, dc.aw⟩ ⟨dr.r3, dr.r4, dr.r5, dr.r6, dr.fresh⟩ e2 e6 (fun h => e5 h hc')
     generalize effUpdate { s with eReg := true, eChan := false } = u at *
-    obtain ⟨udc, udr, ud, uc, uw, ur, uf, ue, usd, usm, udirty, ust, useen⟩ := hu
+    obtain ⟨udc, udr, ud, uc, uf, ue, usd, usm, udirty, ust, useen⟩ := hu
     by_cases hrun : u.2 = true ∨ u.1.eFirst = true
     · rw [if_pos hrun]
       refine ⟨fun hh => by simp at hh, fun _ => ?_⟩
-      obtain ⟨a, b, c, d, e, f, g⟩ := runEffect_inv udc udr (by simpa [ue] using ust) ud (by simpa using uc)
-      exact ⟨a, b, c, d, g, by simpa [uw] using e⟩
+      exact runEffect_inv udc udr (by simpa [ue] using ust) ud (by simpa [ue] using uc)
     · rw [if_neg hrun]
       refine ⟨fun hh => by simp at hh, fun _ => ?_⟩
       have h1 : u.2 = false := by
@@ -585,24 +555,33 @@ theorem eIter_inv {s : State} (dc : DCore s) (dr : DRest s) (ec : ECore s) :
         cases h : s.eDirty
         · rfl
         · have := udirty h; simp [h1] at this
-      refine ⟨udc, udr, ⟨?_, ?_, ?_, ?_, ?_, ?_, ?_⟩, ?_, ?_, ?_⟩ <;> simp_all
+      refine ⟨udc, udr, ⟨?_, ?_, ?_, ?_, ?_, ?_, ?_⟩⟩ <;> simp_all
+
+/-- the effect's loop re-establishes the invariant whatever the fuel (running out of fuel = yield) -/
+theorem eLoop_inv (n : Nat) {s : State} (dc : DCore s) (dr : DRest s) (ec : ECore s) :
+    Inv (eLoop n s) := by
+  induction n generalizing s with
+  | zero =>
+    show Inv { s with eWoken := true }
+    obtain ⟨r1, r2, r7, m1, aw⟩ := dc
+    obtain ⟨r3, r4, r5, r6, fresh⟩ := dr
+    obtain ⟨e1, e2, e3, e5, e6, e7, e8⟩ := ec
+    inv_cases <;> simp_all [lastSeen]
+  | succ n ih =>
+    rw [eLoop]
+    obtain ⟨h0, h1⟩ := eIter_inv dc dr ec
+    split
+    · rename_i hc
+      obtain ⟨a, b, c⟩ := h1 hc
+      exact ih a b c
+    · rename_i hc
+      exact h0 (by simpa using hc)
 
 theorem Inv.pollE {s : State} (h : Inv s) : Inv (pollE s) := by
   unfold Async.pollE
-  rw [eLoop_eq]
   obtain ⟨dc, dr, ec, ew⟩ := h
-  have h0 := eIter_inv (s := { s with eWoken := false }) ⟨dc.r1, dc.r2, dc.r7, dc.m1, dc.aw⟩
+  exact eLoop_inv 4 (s := { s with eWoken := false }) ⟨dc.r1, dc.r2, dc.r7, dc.m1, dc.aw⟩
     ⟨dr.r3, dr.r4, dr.r5, dr.r6, dr.fresh⟩ ⟨ec.e1, ec.e2, ec.e3, ec.e5, ec.e6, ec.e7, ec.e8⟩
-  split
-  · rename_i hc
-    obtain ⟨a, b, c, d, e, f⟩ := h0.2 hc
-    have h2 := (eIter_inv a b c).1
-    rw [eIter_def, if_pos d] at h2 ⊢
-    exact h2 rfl
-  · rename_i hc
-    exact h0.1 (by simpa using hc)
-
-
 
 /-! ## every event -/
 
